@@ -201,6 +201,7 @@ package table
 //@   props C11 C17
 //@   requires #inv_in: t.inv()
 //@   ensures  #found: (result.1 == nil) == t.has(hkey)
+//@   ensures  #err_kind: result.1 == nil || result.1 == ErrHKeyNotFound
 //@   ensures  #key [C11 C17]: result.1 == nil ==> result.0 == t.keyOf(hkey)
 //@   modifies nothing
 
